@@ -12,11 +12,12 @@ Section Mapping.
   Variable T : jkmn_tab.
   Variable kzero : K S -> bool.
 
-  (* make_up_then_down(fermion_operator, n_spinorbitals): odd n, an operator without any ladder factor
-     (max() of an empty list) and too many modes are ValueErrors *)
+  (* make_up_then_down(fermion_operator, n_spinorbitals): odd n and too many modes are ValueErrors.
+     (An operator without any ladder factor used to hit max() of an empty list — recorded finding
+     C03/make_up_then_down/constant-operator, repaired in /repo with max(..., default=-1); the model follows
+     the repaired code: term_modes = 0 for such an operator.) *)
   Definition make_up_then_down (n : N) (a : fop S) : res (fop S) :=
     if N.odd n then Err ValueError
-    else if forallb (fun tc => match fst tc with [] => true | _ => false end) a then Err ValueError
     else if N.ltb n (fop_modes S a) then Err ValueError
     else Ok (reorder_fop S (utd_index n) a).
 
